@@ -106,7 +106,7 @@ def r2_handler_discipline(ctx, sym):
     fn = mod.func('Sandbox._execute')
     g = CFG(fn, raises=exec_raises)
     tries = [t for t in ast.walk(fn) if isinstance(t, ast.Try) and any(
-        call_name(c) in STUDENT_EXEC for c in calls(ast.Module(body=t.body, type_ignores=[])))]
+        call_name(c) == 'exec' for c in calls(ast.Module(body=t.body, type_ignores=[])))]
     ctx.require(len(tries) == 1, "Sandbox._execute no longer has exactly one try around exec")
     n = 0
     covered = set()
@@ -247,6 +247,15 @@ def r3_exactly_one_feedback(ctx, sym):
                       'R3', '_capture_exception:exception-provenance', mod, assigns[0].ast if assigns else fn,
                       "self.exception is not (an improved copy of) the caught exception",
                       "sandbox.exception is some other object")
+    # location provenance: traceback.line_number is the raising line of the last traceback entry
+    from .c17 import line_number_provenance
+    ux = ctx.repo.module('pedal.utilities.exceptions')
+    init = ux.func('ExpandedTraceback.__init__')
+    ctx.analysed_function(ux, init)
+    ln = [n for n in body_walk(init) if isinstance(n, ast.Assign) and any(is_self_attr(t, 'line_number')
+                                                                         for t in n.targets)]
+    ctx.require(len(ln) == 1, "ExpandedTraceback.__init__ no longer assigns line_number once")
+    line_number_provenance(ctx, ux, init, ln, 'R3')
     # no other Feedback constructed in the call closure
     seen = set()
     work = [Callee(mod, fn, sym.find_class(SANDBOX, 'Sandbox'), 'method')]
